@@ -3225,14 +3225,19 @@ class RedunBackendDb(RedunBackend):
         }
         return [record_id for record_id in record_ids if record_id in existing_ids]
 
-    @db_retry
     def put_records(self, records: Iterable[dict]) -> int:
         """
         Writes records to the database and returns number of new records written.
         """
+        # `records` is usually a one-shot generator (e.g. `get_records()` of another backend).
+        # Read it once, outside of the retried write: a retry must see the same records again,
+        # and an error raised by the source while reading must not be retried (and lost) here.
+        return self._put_records(list(records))
+
+    @db_retry
+    def _put_records(self, records: list[dict]) -> int:
         assert self._record_serializer
 
-        records = list(records)
         record_ids = list(map(self._record_serializer.get_pk, records))
         existing_ids = set(self.has_records(record_ids))
 
